@@ -260,6 +260,11 @@ func runCase(d *Def, c *Case) (res Res) {
 	return res
 }
 
+// sameValue - equality of option values (NaN equals NaN: floats are compared by bit pattern).
+func sameValue(kind string, a, b interface{}) bool {
+	return reflect.DeepEqual(NormVal(kind, a), NormVal(kind, b))
+}
+
 func (b *Built) observeOpts(res *Res, raw *strings.Builder) {
 	cfg := b.Cfg
 	for i, o := range cfg.Opts {
@@ -270,10 +275,10 @@ func (b *Built) observeOpts(res *Res, raw *strings.Builder) {
 		res.Called[i] = g.Called(name)
 		res.As[i] = ToAtoms(g.CalledAs(name))
 		// pointer / *Var target, Value(name) and Value(alias) agree; Called/CalledAs agree across names
-		agree := reflect.DeepEqual(g.Value(name), v)
+		agree := sameValue(o.Kind, g.Value(name), v)
 		for _, a := range o.Aliases {
 			s := FromAtoms(a)
-			if !reflect.DeepEqual(g.Value(s), v) || g.Called(s) != res.Called[i] || g.CalledAs(s) != g.CalledAs(name) {
+			if !sameValue(o.Kind, g.Value(s), v) || g.Called(s) != res.Called[i] || g.CalledAs(s) != g.CalledAs(name) {
 				agree = false
 			}
 		}
